@@ -39,6 +39,10 @@ Definition sw_chain (f : cstmt -> option ccode) (dflt : option ccode) (d : nat) 
       end
   end.
 
+(* astnodes.Assignment.operators = ("=", "|=", "&=", "+=", "-=", "*=") *)
+Definition shorthand_ok (o : cbin) : bool :=
+  match o with BAdd | BSub | BMul | BAnd | BOr => true | _ => false end.
+
 Fixpoint compile (w : Z) (rt : cty) (d : nat) (s : cstmt) (k : ccode) : option ccode :=
   match s with
   | SSkip => Some k
@@ -95,6 +99,19 @@ Fixpoint compile (w : Z) (rt : cty) (d : nat) (s : cstmt) (k : ccode) : option c
           end
       | None => None
       end
+  | SAssignOp x t o e =>
+      (* gen_assignment_stmt with is_shorthand: rval (coerced to the type of the target by the type
+         checker), then Load of the target, Binop(load, op, rval) in that type, Store *)
+      if shorthand_ok o && numeric t then
+        match lower w e, ir_ty w t with
+        | Some (te, ve, _), Some vt =>
+            match coerce_tree w te t ve with
+            | Some ce => Some (KStore x (LBin vt (binop_of o) (LVar vt x) ce) k)
+            | None => None
+            end
+        | _, _ => None
+        end
+      else None
   end.
 
 (* constants and registers of a switch live in the int type *)
